@@ -2,6 +2,7 @@ package driver
 
 import (
 	"fmt"
+	"sort"
 	"sync"
 
 	"github.com/cbehopkins/gkvlite"
@@ -12,18 +13,26 @@ import (
 type RefMon struct {
 	mu     sync.Mutex
 	cnt    map[*gkvlite.Item]int
+	acq    map[*gkvlite.Item][]string // where the outstanding references were acquired (LIFO attribution)
+	tag    string
 	viol   string
 	Allocs int64
 	Adds   int64
 	Decs   int64
 }
 
-func NewRefMon() *RefMon { return &RefMon{cnt: map[*gkvlite.Item]int{}} }
+func NewRefMon() *RefMon {
+	return &RefMon{cnt: map[*gkvlite.Item]int{}, acq: map[*gkvlite.Item][]string{}}
+}
+
+// SetTag names the API operation in progress, for attribution of references.
+func (r *RefMon) SetTag(t string) { r.mu.Lock(); r.tag = t; r.mu.Unlock() }
 
 // Alloc registers an item with the count 1 the documentation prescribes.
 func (r *RefMon) Alloc(i *gkvlite.Item) {
 	r.mu.Lock()
 	r.cnt[i] = 1
+	r.acq[i] = append(r.acq[i], "alloc@"+r.tag)
 	r.Allocs++
 	r.mu.Unlock()
 }
@@ -31,6 +40,7 @@ func (r *RefMon) Alloc(i *gkvlite.Item) {
 func (r *RefMon) AddRef(i *gkvlite.Item) {
 	r.mu.Lock()
 	r.cnt[i]++
+	r.acq[i] = append(r.acq[i], "addref@"+r.tag)
 	r.Adds++
 	r.mu.Unlock()
 }
@@ -46,6 +56,9 @@ func (r *RefMon) DecRef(i *gkvlite.Item) {
 		return
 	}
 	r.cnt[i]--
+	if a := r.acq[i]; len(a) > 0 {
+		r.acq[i] = a[:len(a)-1]
+	}
 	if r.cnt[i] < 0 && r.viol == "" {
 		r.viol = fmt.Sprintf("C15/count-below-zero: ItemDecRef took the count of item %s to %d", kvString(i.Key), r.cnt[i])
 	}
@@ -97,15 +110,52 @@ func (r *RefMon) Outstanding() (items int, refs int, example string) {
 			items++
 			refs += c
 			if example == "" {
-				example = fmt.Sprintf("item %s count %d", kvString(it.Key), c)
+				example = fmt.Sprintf("item %s count %d acquired %v", kvString(it.Key), c, r.acq[it])
 			}
 		}
 	}
 	return
 }
 
+// LeakKinds returns the sorted set of acquisition sites of outstanding references.
+func (r *RefMon) LeakKinds() []string {
+	r.mu.Lock()
+	defer r.mu.Unlock()
+	set := map[string]bool{}
+	for it, c := range r.cnt {
+		if c > 0 {
+			a := r.acq[it]
+			if len(a) == 0 {
+				set["unattributed"] = true
+			}
+			for _, k := range a {
+				set[k] = true
+			}
+		}
+	}
+	var res []string
+	for k := range set {
+		res = append(res, k)
+	}
+	sort.Strings(res)
+	return res
+}
+
 func (r *RefMon) Tracked() int {
 	r.mu.Lock()
 	defer r.mu.Unlock()
 	return len(r.cnt)
+}
+
+// LeakedPtrs lists outstanding items (debugging aid).
+func (r *RefMon) LeakedPtrs() []string {
+	r.mu.Lock()
+	defer r.mu.Unlock()
+	var res []string
+	for it, c := range r.cnt {
+		if c != 0 {
+			res = append(res, fmt.Sprintf("%p %s count=%d acq=%v", it, kvString(it.Key), c, r.acq[it]))
+		}
+	}
+	return res
 }
